@@ -12,8 +12,8 @@ func init() {
 		Assumptions: []string{"encoding/json's scanner and decoder (go1.23.5) as the reference for RFC 8259 validity", "user marshallers / value stringers are outside the domain"},
 		Floors:      map[string]int64{"records_decoded": 100},
 		Jobs: func(tier string, seed int64) []Job {
-			n := pick(tier, 6000, 400000)
-			return chunk("main", "prod", n, pick(tier, 500, 12500), Job{Timeout: 30 * time.Minute})
+			n := pick(tier, 40000, 400000)
+			return chunk("main", "prod", n, pick(tier, 2500, 12500), Job{Timeout: 30 * time.Minute})
 		},
 	})
 	register(&Plan{
@@ -25,8 +25,8 @@ func init() {
 		Assumptions: []string{"strconv.Unquote (go1.23.5) decodes what a logfmt reader decodes", "production process mode (the multi-line error dump of testing mode is outside the statement)"},
 		Floors:      map[string]int64{"records_decoded": 100},
 		Jobs: func(tier string, seed int64) []Job {
-			n := pick(tier, 6000, 400000)
-			return chunk("main", "prod", n, pick(tier, 500, 12500), Job{Timeout: 30 * time.Minute})
+			n := pick(tier, 40000, 400000)
+			return chunk("main", "prod", n, pick(tier, 2500, 12500), Job{Timeout: 30 * time.Minute})
 		},
 	})
 	register(&Plan{
@@ -39,9 +39,9 @@ func init() {
 		Assumptions: []string{"ShortTag and Source.Extract of the library are used to build the expected tag and caller text (their own correctness is C17 / C14 / C18)", "under go test, error texts are generated without control bytes (the multi-line dump prints the error text verbatim by design)"},
 		Floors:      map[string]int64{"records_decoded": 100, "layout_checked": 50, "sgr_sequences_simulated": 1000},
 		Jobs: func(tier string, seed int64) []Job {
-			n := pick(tier, 4000, 300000)
-			js := chunk("main", "prod", n, pick(tier, 500, 12500), Job{Timeout: 30 * time.Minute})
-			js = append(js, chunk("main", "test", n/2, pick(tier, 500, 12500), Job{Timeout: 30 * time.Minute})...)
+			n := pick(tier, 24000, 300000)
+			js := chunk("main", "prod", n, pick(tier, 2000, 12500), Job{Timeout: 30 * time.Minute})
+			js = append(js, chunk("main", "test", n/2, pick(tier, 2000, 12500), Job{Timeout: 30 * time.Minute})...)
 			return js
 		},
 	})
@@ -54,8 +54,8 @@ func init() {
 		Assumptions: []string{"the decoders of C04/C05/C06 (independent JSON walker, logfmt tokenizer, SGR stripper)"},
 		Floors:      map[string]int64{"records_decoded": 100, "records_with_13plus_attrs": 20, "inheriting_child_without_own_attrs": 5},
 		Jobs: func(tier string, seed int64) []Job {
-			n := pick(tier, 6000, 300000)
-			return chunk("main", "prod", n, pick(tier, 500, 10000), Job{Timeout: 30 * time.Minute})
+			n := pick(tier, 40000, 300000)
+			return chunk("main", "prod", n, pick(tier, 2500, 10000), Job{Timeout: 30 * time.Minute})
 		},
 	})
 	register(&Plan{
@@ -69,7 +69,7 @@ func init() {
 		Floors:      map[string]int64{"cells": 5000, "records_emitted": 1000, "calls_silent": 1000},
 		Exhaustive:  func(string) bool { return true },
 		Jobs: func(tier string, seed int64) []Job {
-			n := pick(tier, 3, 200)
+			n := pick(tier, 6, 200)
 			return chunk("table", "prod", n, 1, Job{Timeout: 20 * time.Minute})
 		},
 	})
@@ -86,7 +86,7 @@ func init() {
 			// alphabet 30: lengths <=2 -> 931 sequences, <=3 -> 27931
 			n := pick(tier, 931, 27931)
 			js := chunk("exh", "prod", n, pick(tier, 80, 1800), Job{Timeout: 30 * time.Minute})
-			js = append(js, chunk("rand", "prod", pick(tier, 3000, 100000), pick(tier, 400, 6500), Job{Timeout: 30 * time.Minute})...)
+			js = append(js, chunk("rand", "prod", pick(tier, 16000, 100000), pick(tier, 1000, 6500), Job{Timeout: 30 * time.Minute})...)
 			return js
 		},
 	})
@@ -100,9 +100,9 @@ func init() {
 		Assumptions: []string{"values whose own methods panic and cyclic values are not generated", "admission by the C01 rule, destination selection by the C03 model"},
 		Floors:      map[string]int64{"calls_admitted": 500, "calls_not_admitted_silent": 100, "records_delivered_whole": 500},
 		Jobs: func(tier string, seed int64) []Job {
-			n := pick(tier, 8000, 400000)
-			js := chunk("main", "prod", n, pick(tier, 500, 12500), Job{Timeout: 30 * time.Minute})
-			js = append(js, chunk("main", "test", n/4, pick(tier, 500, 12500), Job{Timeout: 30 * time.Minute})...)
+			n := pick(tier, 32000, 400000)
+			js := chunk("main", "prod", n, pick(tier, 2000, 12500), Job{Timeout: 30 * time.Minute})
+			js = append(js, chunk("main", "test", n/4, pick(tier, 1000, 12500), Job{Timeout: 30 * time.Minute})...)
 			return js
 		},
 	})
@@ -130,8 +130,8 @@ func init() {
 		Assumptions: []string{"two runtime.GC() cycles empty sync.Pool (victim cache), giving a fresh formatting context for the reference"},
 		Floors:      map[string]int64{"probe_executions": 500, "reuse_of_pooled_context_confirmed": 100, "reuse_after_a_different_class_of_record": 50},
 		Jobs: func(tier string, seed int64) []Job {
-			n := pick(tier, 600, 30000)
-			return chunk("hist", "prod", n, pick(tier, 50, 1000), Job{Procs: 1, Timeout: 40 * time.Minute})
+			n := pick(tier, 3200, 30000)
+			return chunk("hist", "prod", n, pick(tier, 200, 1000), Job{Procs: 1, Timeout: 40 * time.Minute})
 		},
 	})
 	register(&Plan{
@@ -143,8 +143,8 @@ func init() {
 		Assumptions: []string{"default flags (LlocalTime set): an unset UTC mode means the instant's own zone", "SetTimeFormat is only called with explicit non-empty layouts"},
 		Floors:      map[string]int64{"operations": 2000, "isolation_comparisons": 10000, "model_comparisons": 10000, "lookups": 100, "default_level_checks": 10},
 		Jobs: func(tier string, seed int64) []Job {
-			n := pick(tier, 600, 40000)
-			js := chunk("tree", "prod", n, pick(tier, 40, 1300), Job{Timeout: 40 * time.Minute})
+			n := pick(tier, 3200, 40000)
+			js := chunk("tree", "prod", n, pick(tier, 200, 1300), Job{Timeout: 40 * time.Minute})
 			js = append(js, chunk("deflevel", "prod", pick(tier, 4, 40), 1, Job{})...)
 			js = append(js, chunk("deflevel", "test", pick(tier, 4, 40), 1, Job{})...)
 			return js
@@ -162,7 +162,7 @@ func init() {
 			// 54 symbols: lengths <=2 -> 1+54+2916 = 2971 ; <=3 -> 160435
 			n := pick(tier, 2971, 160435)
 			js := chunk("exh", "prod", n, pick(tier, 250, 10100), Job{Timeout: 30 * time.Minute})
-			js = append(js, chunk("rand", "prod", pick(tier, 2000, 50000), pick(tier, 250, 3200), Job{Timeout: 30 * time.Minute})...)
+			js = append(js, chunk("rand", "prod", pick(tier, 12000, 50000), pick(tier, 1000, 3200), Job{Timeout: 30 * time.Minute})...)
 			return js
 		},
 	})
@@ -240,8 +240,8 @@ func init() {
 		Assumptions: []string{"records carry a non-zero time", "attributes bound to the underlying logger itself are not generated (the statement does not say whether a handler shows them)", "an open group always receives at least one attribute (log/slog elides empty groups)"},
 		Floors:      map[string]int64{"records_decoded": 300, "derived_handler_records": 100, "enabled_compared": 1000, "bridge_calls": 500, "bridge_records_decoded": 100, "levels_returned_normally": 79, "explicit_terminations_observed": 2},
 		Jobs: func(tier string, seed int64) []Job {
-			js := chunk("handler", "prod", pick(tier, 4000, 200000), pick(tier, 400, 12500), Job{Timeout: 30 * time.Minute})
-			js = append(js, chunk("bridge", "prod", pick(tier, 2048, 65536), pick(tier, 512, 8192), Job{Timeout: 30 * time.Minute})...)
+			js := chunk("handler", "prod", pick(tier, 24000, 200000), pick(tier, 2000, 12500), Job{Timeout: 30 * time.Minute})
+			js = append(js, chunk("bridge", "prod", pick(tier, 8192, 65536), pick(tier, 1024, 8192), Job{Timeout: 30 * time.Minute})...)
 			js = append(js, chunk("levelsweep", "prod", 3, 1, Job{Timeout: 10 * time.Minute})...)
 			return js
 		},
@@ -254,7 +254,7 @@ func init() {
 		Assumptions: []string{"Go's time.Format/time.Parse (go1.23.5) as the reference for layouts"},
 		Floors:      map[string]int64{"timestamps_extracted": 1000, "parsed_back": 100},
 		Jobs: func(tier string, seed int64) []Job {
-			return chunk("ts", "prod", pick(tier, 8000, 500000), pick(tier, 500, 16000), Job{Timeout: 30 * time.Minute})
+			return chunk("ts", "prod", pick(tier, 48000, 500000), pick(tier, 3000, 16000), Job{Timeout: 30 * time.Minute})
 		},
 	})
 	register(&Plan{
@@ -266,7 +266,7 @@ func init() {
 		Assumptions: []string{"ASCII titles", "a title that differs only in case from a used name may be refused or accepted"},
 		Floors:      map[string]int64{"register_calls": 500, "registrations_accepted": 100, "refusals_checked_for_side_effects": 50, "roundtrips": 5000, "custom_levels_probed": 500},
 		Jobs: func(tier string, seed int64) []Job {
-			return chunk("hist", "prod", pick(tier, 150, 10000), 1, Job{Timeout: 10 * time.Minute})
+			return chunk("hist", "prod", pick(tier, 400, 10000), 1, Job{Timeout: 10 * time.Minute})
 		},
 	})
 	register(&Plan{
@@ -278,7 +278,7 @@ func init() {
 		Assumptions: []string{"replacements are non-empty and not absolute paths", "ResetKnownPathMapping and removal of the home / cwd entries are not generated", "paths that merely string-prefix-match a key without lying under it (/srvx for /srv) are unconstrained"},
 		Floors:      map[string]int64{"queries": 10000, "caller_fields_checked": 20},
 		Jobs: func(tier string, seed int64) []Job {
-			return chunk("paths", "prod", pick(tier, 2000, 60000), pick(tier, 125, 3750), Job{Timeout: 30 * time.Minute})
+			return chunk("paths", "prod", pick(tier, 8000, 60000), pick(tier, 500, 3750), Job{Timeout: 30 * time.Minute})
 		},
 	})
 	register(&Plan{
@@ -289,7 +289,7 @@ func init() {
 		Assumptions: []string{"bytes.Buffer of the toolchain that builds the workload (go1.23.5) is the reference", "error and panic texts are compared after replacing 'bytes.Buffer' / 'logg/slog.PrintCtx' by a common token"},
 		Floors:      map[string]int64{"ops_executed": 50000, "ops_that_panicked_in_both": 50},
 		Jobs: func(tier string, seed int64) []Job {
-			return chunk("diff", "prod", pick(tier, 6000, 1000000), pick(tier, 400, 32000), Job{Timeout: 40 * time.Minute})
+			return chunk("diff", "prod", pick(tier, 32000, 1000000), pick(tier, 2000, 32000), Job{Timeout: 40 * time.Minute})
 		},
 	})
 }
